@@ -91,6 +91,15 @@ UNIT = Unit(
                                                          f"  forall|j: int| 0 <= j < {mt.group(1)} ==> inferred(#[trigger] items@[j], items_tast@[j]),\n"
                                                          f"  forall|j: int| 0 <= j < {mt.group(1)} ==> #[trigger] typs@[j] == expr_ty(items_tast@[j]),\n decreases items.len() - {mt.group(1)},") if mt else None)(
                                                          re.search(r"while\s+(__fk\d+)\s*<\s*items\.len\(\)", header))),
+        whole("infer_array_expr",
+              "ensures r matches Expr::EArray { items: a, ty } && a@.len() == items@.len() && (forall|i: int| 0 <= i < items@.len() ==> inferred(#[trigger] items@[i], a@[i]))\n"
+              "  && (ty matches Ty::TArray { len: n, elem } && n == items@.len() && forall|i: int| 0 <= i < a@.len() ==> final(self).recorded().contains(Constraint::TypeEqual(expr_ty(#[trigger] a@[i]), *elem))),",
+              "array literal: the length is the number of items and EVERY item's type is equated with the element type",
+              sigfix=[("items: &[ExprId]", "items: &Vec<ExprId>", 1), ("let mut items_tast = Vec::with_capacity(len);", "let mut items_tast: Vec<Expr> = Vec::with_capacity(len);", 1)],
+              loop_fn=lambda k, header, kw: (lambda mt: (f"invariant {mt.group(1)} <= items.len(), items_tast@.len() == {mt.group(1)},\n"
+                                                         f"  forall|j: int| 0 <= j < {mt.group(1)} ==> inferred(#[trigger] items@[j], items_tast@[j]),\n"
+                                                         f"  forall|j: int| 0 <= j < {mt.group(1)} ==> self.recorded().contains(Constraint::TypeEqual(expr_ty(#[trigger] items_tast@[j]), elem_ty)),\n decreases items.len() - {mt.group(1)},") if mt else None)(
+                                                         re.search(r"while\s+(__fk\d+)\s*<\s*items\.len\(\)", header))),
         whole("infer_field_expr",
               "ensures r matches Expr::EField { expr: b, field_name, ty, astptr: _ } && inferred(expr, *b) && field_name@ == field.text()\n"
               "  && exists|f: TastIdent| #[trigger] final(self).recorded().contains(Constraint::StructFieldAccess { expr_ty: expr_ty(*b), field: f, result_ty: ty }) && f.0@ == field.text(),",
